@@ -1712,6 +1712,15 @@ def _tiling(ctx, E, q, seq, fn):
                     v.bad({"the loop starts at": show(it[1]), "written up to": show(wp), "differ for": w}, e.node)
                 elif r is None:
                     v.unknown({"the loop starts at": show(it[1]), "written up to": show(wp)}, e.node)
+                # only a loop whose variable is where the writes inside start is a loop over positions of the sequence
+                inside = [_int_records(E, x, seq, N) for x in s.events if e.d["loop"] in x.loops and x.kind in ("format", "call")]
+                inside = [x for x in inside if x is not None]
+                if not inside or any("unknown" in x or x["a"] != e.d["target"] for x in inside):
+                    if inside or any(x.kind == "call" and x.d["attr"] == "write" and e.d["loop"] in x.loops for x in s.events):
+                        v.unknown({"loop": show(it), "writes inside": [x.get("unknown") or show(x["a"]) for x in inside][:3]}, e.node)
+                        wp = None
+                        break
+                    continue
                 for_loops[e.d["loop"]] = (e.d["target"], it)
                 wp = e.d["target"]
             elif e.kind == "loopend" and e.d["loop"] in for_loops:
@@ -1747,7 +1756,7 @@ def _tiling(ctx, E, q, seq, fn):
                     v.unknown({"slice starts at": show(a), "written up to": show(wp)}, e.node)
                 wp = b
         # a path that stops early must have nothing left:  facts imply wp >= N
-        if wp != N:
+        if wp is not None and wp != N:
             lo, hi = M.bounds(wp - N, s.facts)
             if not (lo is not None and lo >= 0):
                 syms = M.free_symbols(wp - N)
@@ -1856,19 +1865,22 @@ RULES = [
 ]
 LEVEL = "other"
 EXPLANATION = ("Static: every hard-wired or default floating-point format in the bulk writers is checked to fit its field over all finite doubles "
-               "(E5 width bound); wttabled1/wtgrids line templates obey the 8 + n*W card grid and the leftover arithmetic keeps ENDT on the card; "
-               "vectorised writes that can receive an empty vector are guarded (derived from vecwrite's own summary); typed readers index the fields "
-               "the writers fill; the DMIG half-storage test matches the reader's mirror; list writers (wtnasints, wtset, _wt_with_thru) emit every "
-               "element exactly once and give every template as many values as it has fields.  All rules are decided on symbolic values "
-               "(templates, linear integer forms, path facts), not on source text.")
+               "(E5 width bound); wttabled1/wtgrids line templates obey the 8 + n*W card grid (case split on the rendered width of the user format) and "
+               "the leftover arithmetic keeps ENDT on the card; vectorised writes that can receive an empty vector are guarded (derived from vecwrite's "
+               "own summary); typed readers index the fields the writers fill; the DMIG half-storage test matches the reader's mirror and the reader "
+               "stores entries at (row position, column position); list writers (wtnasints, wtset, _wt_with_thru) emit every element exactly once and "
+               "give every template as many values as it has fields.  All rules are decided on symbolic values (string templates, linear integer "
+               "forms with floor division, path facts) computed by verifier/c13_sem.py, not on source text; what a rule cannot lower is an analysis "
+               "error, never a violation.")
 MANIFEST = {
     "text": "Partial claim decided statically: (R1) width of every floating-point spec over the whole double range, card-grid arithmetic of wttabled1/wtgrids "
-            "templates, leftover-pair range; (R2) non-empty-vector contract of writer.vecwrite at its call sites; (R3) reader strides vs writer layout, DMIG "
-            "symmetry test vs reader mirror, form-6 start row, D exponent; (R4) wtnasints line wrapping (field count = value count, capacity, consecutive slices) "
-            "and the THRU cursor of wtset/_wt_with_thru. Known findings (default/hard-wired formats narrower than the value domain) are "
-            "listed in known_findings.json. Not decided: run detection of _find_sequence on data, DMIG index ordering on data, precision of values, "
-            "uset2bulk/bulk2uset coordinate chains.",
-    "note": "Trusted: CPython ast; Python format-spec semantics ('E' exponents have at least two digits and three below 1e-99/above 1e+99).",
-    "technique": "symbolic evaluation of string templates and integer extents with path facts + format-width abstract interpretation + call-site "
-                 "contracts derived from the callee's summary",
+            "templates, leftover-pair range, last-line head, ENDT; (R2) non-empty-vector contract of writer.vecwrite at its call sites; (R3) reader strides vs "
+            "writer layout, DMIG symmetry test vs reader mirror, entry orientation, rows written per column, D exponent; (R4) wtnasints line wrapping (field "
+            "count = value count, capacity, consecutive slices) and the THRU cursor of wtset/_wt_with_thru. Known findings (default/hard-wired formats narrower "
+            "than the value domain) are listed in known_findings.json. Not decided: run detection of _find_sequence on data, text wrapping of SET lines, "
+            "DMIG index ordering on data, precision of values, uset2bulk/bulk2uset coordinate chains.",
+    "note": "Trusted: CPython ast; Python format-spec semantics ('E' exponents have at least two digits and three below 1e-99/above 1e+99). Assumed: the "
+            "sequences handed to the writers have at least one entry.",
+    "technique": "symbolic evaluation of string templates and integer extents with path facts (verifier/c13_sem.py) + format-width abstract interpretation + "
+                 "call-site contracts derived from the callee's summary + bounded witness search under the tests the code itself performs",
 }
